@@ -47,7 +47,7 @@ def runCase (s : St) : String × Option Measured :=
     let j := match s.thr.get? (s.lang, s.size) with
       | none => s!"FAIL no threshold committed for {s.lang} at {s.size} tokens"
       | some thr =>
-        match judgeCase thr m (g "incr_error" == 1) (g "scratch_error" == 1) (g "same_sexp" == 1) with
+        match judgeCase thr m (g "incr_error" == 1) (g "scratch_error" == 1) (g "same_sexp" == 1) (g "lexed") with
         | some msg => "FAIL " ++ msg
         | none => if marks.startsWith "FAIL" then "FAIL marking: " ++ (marks.drop 5).toString
                   else if balS.startsWith "FAIL" then "FAIL not balanced: " ++ (balS.drop 5).toString else "ok"
